@@ -38,6 +38,10 @@ pub(crate) fn apply_file_system_operations(
     let mut count = 0;
 
     for operation in operations {
+        #[cfg(feature = "isographlabs_isograph_verif")]
+        if let Some(fault) = crate::verif::fault_point() {
+            return Err(fault);
+        }
         match operation {
             FileSystemOperation::DeleteDirectory(path) => {
                 if path.exists() {
